@@ -105,6 +105,8 @@ def run(ctx, model_ok):
                     evs.append([7, lookup, q, ws])
                     if rng.random() < 0.4:                      # unrelated same-thread records in between
                         evs.append([7, R.code_of['BSC_getpid'], rng.choice([0, 3]), [1, 2, 3, 4]])
+                if 'VFS_LOOKUP_DONE' in R.code_of and rng.random() < 0.6:   # the kernel's lookup-done notice is not a lookup
+                    evs.append([7, R.code_of['VFS_LOOKUP_DONE'], 0, [vid, 0, 0, 0]])
             evs.append([7, R.code_of[key], 2, [0, 5, 0, 0]])
             recs = [D.record(j + 1, ws, t, c | q) for j, (t, c, q, ws) in enumerate(evs)]
             reqs.append({'file': D.build_v2([(7, 1, b'p')], 0, recs).hex(), 'cfg': {'color': False}, 'calls': ['traces']})
@@ -158,13 +160,25 @@ def run(ctx, model_ok):
             recs = [D.record(j + 1, ws, t, c | q) for j, (t, c, q, ws) in enumerate(evs)]
             sreqs.append({'file': D.build_v2([(7, 1, b'p')], 0, recs).hex(), 'cfg': {'color': False}, 'calls': ['traces']})
             sexps.append((kind, sid, text))
+    # a string id announced twice with different texts: each announcement reports its own text
+    for _ in range(6 if ctx.quick() else 60):
+        sid = rng.randint(1, 99)
+        t1, t2 = rand_text(rng, rng.choice([5, 17, 49])), rand_text(rng, rng.choice([3, 16, 50]))
+        evs = [[7, gcode, q, ws] for q, ws in enc(1, 5, sid, t1)] + [[7, gcode, q, ws] for q, ws in enc(1, 5, sid, t2)]
+        recs = [D.record(j + 1, ws, t, c | q) for j, (t, c, q, ws) in enumerate(evs)]
+        sreqs.append({'file': D.build_v2([(7, 1, b'p')], 0, recs).hex(), 'cfg': {'color': False}, 'calls': ['traces']})
+        sexps.append((3, sid, (t1, t2)))
     sout = vlib.run_impl('run_api.py', {'cases': sreqs})['results']
     ctx.evaluations += len(sreqs)
     for (kind, sid, text), calls in zip(sexps, sout):
         c = calls[0]
-        cls = 'TraceStringGlobal' if kind == 1 else 'TraceStringThreadname'
+        cls = 'TraceStringGlobal' if kind in (1, 3) else 'TraceStringThreadname'
         got = [it[4] for it in c['items'] if it[0] == cls]
-        want = [f'New global string: "{text.decode()}", id: {sid}'] if kind == 1 else [f'New thread name: {text.decode()}']
+        if kind == 3:
+            want = [f'New global string: "{t.decode()}", id: {sid}' for t in text]
+            text = text[1]
+        else:
+            want = [f'New global string: "{text.decode()}", id: {sid}'] if kind == 1 else [f'New thread name: {text.decode()}']
         if c['err'] or got != want:
             ctx.failing.append({'input': {'kind': cls, 'text': text.hex(), 'id': sid}, 'expected': want,
                                 'actual': got or c['err'],
